@@ -691,7 +691,8 @@ class C05(PropBase):
     coq_dirs = ["Base", "Gen", "C08", "C05"]
     translators = ["unwind_consts.py"]
     bins = ["c05"]
-    impl_timeout = 300
+    impl_timeout = 900       # per shard; a hanging case is ended by the harness's own per-case CPU-time watchdog long before
+    model_timeout = 3600     # per shard of the extracted model (thorough tier: ~20 000 cases per shard on a loaded machine)
     rule = ("cases = (cpu, os, context registers + validity, stack base + bytes, modules with optional symbol file of the "
             "family `.cfa: SP N + .ra: (.cfa M - ^ | const) [FP: .cfa K - ^]`); adversarial generator: stack at the top of the "
             "address space / at 0 / anywhere, sp and fp inside, below, at the end of, beyond the stack and at 0, 2^32-1, 2^64-1, "
@@ -797,6 +798,13 @@ class C05(PropBase):
             c, _, _ = build_chain(rng, arch, os_, tech, depth, top_of_space=rng.chance(1, 4))
             cases.append(c)
             dist["wellformed"] += 1
+        # The runner shards the case list contiguously over processes.  The deep well-formed chains (and the symbol-file
+        # cases) cost the model driver 10-100x an adversarial tuple; left at the end of the list they all land in the last
+        # shard, which then decides the wall time (and exceeded the shard time limit in a thorough run on a loaded machine).
+        # A seed-determined Fisher-Yates shuffle spreads them evenly.
+        for i in range(len(cases) - 1, 0, -1):
+            j = rng.below(i + 1)
+            cases[i], cases[j] = cases[j], cases[i]
         return cases, dist, False
 
 
